@@ -11,7 +11,10 @@ wilson.calc_wce's combination at contour points j, j+2, j+4 and the integer poin
 Oracle streams (the property evaluated on the real code; they support the theorems, they do not
 replace them): identity at Q²=Q0² (zero NLO part, including the msbar non-diagonal term), LO
 composition through an intermediate scale, momentum sum at j=1 (conformal moment j = n−1), first
-non-singlet moment at j=0, projector algebra, RG equation by finite differences in ln μ².
+non-singlet moment at j=0, projector algebra, RG equation by finite differences in ln μ²;
+re-used model objects (Q02 / asp / r20 / nf / p assigned after a first evaluation: operator bit-equal to that of a fresh
+object, identity at the new input scale); exactly coinciding scales (Q02 == r20, Q2 == Q02) with reference couplings
+that differ between the orders: identity, and the LO operator against scipy's matrix exponential.
 """
 import math
 
@@ -38,6 +41,22 @@ def parse_cx(tokens):
     return [complex(v[i], v[i + 1]) for i in range(0, len(v), 2)]
 
 
+def in_real_code(e):
+    """True when the exception was raised in a frame of the package under study (not in the harness)"""
+    import os
+    import traceback
+    src = os.path.join(common.REPO, 'src')
+    return any(f.filename.startswith(src) for f in traceback.extract_tb(e.__traceback__))
+
+
+def asp_of(p, a0):
+    """the (LO, NLO, NNLO) reference couplings of a theory whose order-p entry is a0: the other entries are
+    different numbers (as in the package default asp = [0.0606, 0.0518, 0.0488]), the evolution must not read them"""
+    v = [1.17 * a0, 0.85 * a0, 0.8 * a0]
+    v[p] = a0
+    return v
+
+
 def fd4(f, L, h):
     """4th-order central difference"""
     return (-f(L + 2 * h) + 8 * f(L + h) - 8 * f(L - h) + f(L - 2 * h)) / (12 * h)
@@ -57,7 +76,7 @@ def run(rep):
         pass
 
     def mk(p, nf, scheme, Q02, r20, a0):
-        return Th(p=p, nf=nf, scheme=scheme, Q02=Q02, r20=r20, asp=np.array([a0, a0, a0]))
+        return Th(p=p, nf=nf, scheme=scheme, Q02=Q02, r20=r20, asp=np.array(asp_of(p, a0)))
 
     lines, meta = [], []
     worst_o = {}
@@ -78,9 +97,166 @@ def run(rep):
         d = dict(theory=info)
         d.update(extra)
         d['reproduce'] = ("class Th(gepard.gpd.TestGPD, gepard.cff.MellinBarnesCFF): pass; "
-                          "th = Th(p=p, nf=nf, scheme=scheme, Q02=Q02, r20=r20, asp=np.array([a0]*3)); "
+                          "asp = [1.17*a0, 0.85*a0, 0.8*a0]; asp[p] = a0; "
+                          "th = Th(p=p, nf=nf, scheme=scheme, Q02=Q02, r20=r20, asp=np.array(asp)); "
                           "gepard.evolution.evolop(th, j, Q2, process_class)")
         rep.violation(key, what, d, found_input=True)
+
+    def in_domain(p, nf, Q02, Q2, a0, r20):
+        """the quantifier of the property: 0 < as(Q2)/2pi <= 0.1, 0 < as(Q02)/2pi < 1 (None when not computable)"""
+        try:
+            A = qcd.as2pf(p, nf, Q2, a0, r20)
+            A0 = qcd.as2pf(p, nf, Q02, a0, r20)
+        except (OverflowError, ZeroDivisionError, ValueError):
+            return None
+        return (A, A0) if (0 < A <= 0.1 and 0 < A0 < 1.0) else None
+
+    def contour_js(th, nk):
+        idx = sorted(rng.sample(range(len(th.jpoints)), nk))
+        jc = th.jpoints[idx]
+        jj = np.concatenate([jc, jc + 2, jc + 4, [1.0 + 0j]])
+        return jj, np.concatenate([jj, [0j]])
+
+    def identity_at_input(th, info, tag, jj, jn, pcs, stream, keyp=''):
+        """O1 on the object th as it is now: evolution to ITS input scale is the identity with zero NLO part"""
+        for pc in pcs:
+            E00 = ev.evolop(th, jj, th.Q02, pc)
+            En0 = ev.evolopns(th, jn, th.Q02, pc)
+            d0 = float(np.abs(E00[:, 0] - eye).max())
+            d1 = float(np.abs(E00[:, 1]).max())
+            dn0 = float(np.abs(En0[:, 0] - 1).max())
+            dn1 = float(np.abs(En0[:, 1]).max())
+            track(stream + ' identity |E0-1|', max(d0, dn0))
+            track(stream + ' identity |E1|', max(d1, dn1))
+            psc = max(1.0, float(np.abs(ev.projectors(adim.singlet_LO(jj + 1, th.nf).transpose((2, 0, 1)))[1]).max()))
+            if not (d0 <= 1e-12 * psc and dn0 <= 1e-13):
+                viol(keyp + 'identity/LO/' + tag, 'evolution to the input scale is not the identity: max|E0-1|=%g, NS %g '
+                     '(%s, process_class=%s)' % (d0, dn0, info, pc), info, process_class=pc, j=[str(z) for z in jn])
+            if not (d1 <= 1e-13 and dn1 <= 1e-13):
+                viol(keyp + 'identity/NLO/' + tag + '/' + pc, 'NLO part of the operator at the input scale is not zero: '
+                     'max|E1|=%g, NS %g (%s, process_class=%s)' % (d1, dn1, info, pc), info, process_class=pc,
+                     j=[str(z) for z in jn])
+
+    def reuse_stream():
+        """ONE model object, evaluated, then Q02 / asp / r20 (nf, p) assigned new values and evaluated again: the operator is
+        a function of the current values — it equals, bit for bit, that of a fresh object built with them, and evolution to
+        the (new) input scale is the identity.  The reference is the fresh object; nothing else is assumed."""
+        nre = 36 if quick else 400
+        kinds = ['Q02', 'asp', 'r20', 'asp-in-place', 'Q02+r20', 'Q02', 'asp', 'r20', 'nf', 'p', 'Q02+asp+r20']
+        n_nd = 2 if quick else 12
+        made = 0
+        for i in range(20 * nre):
+            if made >= nre:
+                break
+            nf, p, scheme = combos[made % len(combos)]
+            what = kinds[(made // 2) % len(kinds)] if made < 4 * len(kinds) else rng.choice(kinds)
+            old = dict(nf=nf, p=p, scheme=scheme, Q02=rng.uniform(1, 10), a0=rng.uniform(0.005, 0.08),
+                       r20=2.5 if rng.random() < 0.3 else rng.uniform(1, 10))
+            Q2a = 10 ** rng.uniform(0, 4)
+            new = dict(old)
+            if 'Q02' in what:
+                new['Q02'] = rng.uniform(1, 10)
+            if 'asp' in what:
+                new['a0'] = rng.uniform(0.005, 0.08)
+            if 'r20' in what:
+                new['r20'] = rng.uniform(1, 10)
+            if what == 'nf':
+                new['nf'] = rng.choice([n_ for n_ in (3, 4, 5) if n_ != nf])
+            if what == 'p':
+                new['p'] = 1 - p
+            Q2b = Q2a if rng.random() < 0.5 else 10 ** rng.uniform(0, 4)
+            if not in_domain(old['p'], old['nf'], old['Q02'], Q2a, old['a0'], old['r20']) or \
+                    not in_domain(new['p'], new['nf'], new['Q02'], Q2b, new['a0'], new['r20']):
+                continue
+            made += 1
+            th = mk(old['p'], old['nf'], scheme, old['Q02'], old['r20'], old['a0'])
+            jj, jn = contour_js(th, 3)
+            nd = (scheme == 'msbar' and new['p'] == 1 and n_nd > 0)      # the non-diagonal term (cb1) reads the same state
+            if nd:
+                n_nd -= 1
+                jj, jn = jj[[0, 3, 9]], jn[[0, 3, 9, 10]]
+            pc = 'DVCS' if nd or (scheme == 'csbar' and rng.random() < 0.7) else 'DIS'
+            info = dict(nf=new['nf'], p=new['p'], scheme=scheme, Q02=new['Q02'], Q2=Q2b, a0=new['a0'], r20=new['r20'],
+                        process_class=pc, object_history='built with %r, evolop/evolopns evaluated at Q2=%r, then %s assigned on '
+                        'the same object' % (old, Q2a, what))
+            tag = 'nf=%d/p=%d/%s' % (new['nf'], new['p'], scheme)
+            rep.hist('reuse.reassigned', what)
+            try:
+                ev.evolop(th, jj, Q2a, pc)
+                ev.evolopns(th, jn, Q2a, pc)
+                if rng.random() < 0.5:
+                    ev.evolop(th, jj, old['Q02'], pc)
+                if what == 'asp-in-place':
+                    th.asp[new['p']] = new['a0']
+                else:
+                    th.Q02, th.r20, th.nf, th.p = new['Q02'], new['r20'], new['nf'], new['p']
+                    if 'asp' in what or what == 'p':
+                        th.asp = np.array(asp_of(new['p'], new['a0']))
+                fresh = mk(new['p'], new['nf'], scheme, new['Q02'], new['r20'], new['a0'])
+                res = [(ev.evolop(o, jj, Q2b, pc), ev.evolopns(o, jn, Q2b, pc)) for o in (th, fresh)]
+                rep.case('oracle.reuse', (tag, what, old['Q02'], new['Q02'], Q2b), sample=dict(info))
+                same = np.array_equal(res[0][0], res[1][0]) and np.array_equal(res[0][1], res[1][1])
+                if not same:
+                    dev = max(float(np.abs(res[0][0] - res[1][0]).max()), float(np.abs(res[0][1] - res[1][1]).max()))
+                    viol('reuse/' + what, 'the evolution operator of a model object whose %s was assigned after a first '
+                         'evaluation differs from that of a fresh object with the same values (max |difference| %g): %s' % (
+                             what, dev, info), info, j=[str(z) for z in jn])
+                identity_at_input(th, info, tag, jj, jn, [pc], 'reuse', keyp='reuse/')
+            except Exception as e:
+                rep.violation('reuse/exception/' + type(e).__name__, 'evolution code raised %r on a re-used object (%s)' % (e, info),
+                              dict(theory=info), found_input=in_real_code(e))
+        rep.coverage['reuse_cases'] = made
+
+    def exact_scale_stream():
+        """the scales that coincide EXACTLY: Q02 == r20 (the coupling at the input scale is then the reference coupling
+        asp[p] itself, by definition), Q2 == Q02, Q2 == r20; reference couplings different for every order.
+        LO operator against scipy's matrix exponential exp(-(gamma0/beta0) ln R) with R = as(Q2)/asp[p]."""
+        from scipy.linalg import expm
+        nex = 24 if quick else 240
+        for i in range(nex):
+            nf, p, scheme = combos[i % len(combos)]
+            # the package defaults first (r20 = 2.5, Q02 = 4), then anywhere in [1, 10]
+            s0 = [2.5, 4.0][i // len(combos)] if i < 2 * len(combos) else rng.uniform(1, 10)
+            a0 = rng.uniform(0.005, 0.08)
+            mode = ['Q2>Q02', 'Q2==Q02', 'Q2>Q02', 'Q2<Q02'][i % 4]
+            Q2 = s0
+            if mode != 'Q2==Q02':
+                for _try in range(50):
+                    Q2 = min(1e4, s0 * 10 ** rng.uniform(0, 3)) if mode == 'Q2>Q02' else max(1.0, s0 * 10 ** rng.uniform(-1, 0))
+                    if in_domain(p, nf, s0, Q2, a0, s0):
+                        break
+                else:
+                    Q2 = s0
+            th = mk(p, nf, scheme, s0, s0, a0)
+            info = dict(nf=nf, p=p, scheme=scheme, Q02=s0, Q2=Q2, a0=a0, r20=s0, scales='Q02 == r20 exactly; asp = %r' % (asp_of(p, a0),))
+            tag = 'nf=%d/p=%d/%s' % (nf, p, scheme)
+            jj, jn = contour_js(th, 3)
+            pcs = ['DIS'] + (['DVCS'] if (scheme == 'csbar' or p == 0 or i % 6 == 3) else [])
+            if 'DVCS' in pcs and scheme == 'msbar' and p == 1:
+                jj, jn = jj[[0, 3, 9]], jn[[0, 3, 9, 10]]
+            rep.hist('exact-scale', mode)
+            try:
+                rep.case('oracle.exact-scale', (tag, s0, Q2, a0), sample=dict(info))
+                identity_at_input(th, info, tag, jj, jn, pcs, 'exact-scale', keyp='exact-scale/')
+                A = qcd.as2pf(p, nf, Q2, a0, s0)
+                R = A / a0                          # as(Q02 = r20) = asp[p]: the definition of the reference coupling
+                b0 = qcd.beta(0, nf)
+                gam0 = adim.singlet_LO(jj + 1, nf).transpose((2, 0, 1))
+                g0n = adim.non_singlet_LO(jn + 1, nf, 1)
+                E = ev.evolop(th, jj, Q2, 'DIS')[:, 0]
+                En = ev.evolopns(th, jn, Q2, 'DIS')[:, 0]
+                ref = np.array([expm(-gam0[k] / b0 * math.log(R)) for k in range(len(jj))])
+                refn = np.exp(-g0n / b0 * math.log(R))
+                sc = np.array([np.abs(expm(np.abs(gam0[k]) / b0 * abs(math.log(R)))).max() for k in range(len(jj))])
+                d = float((np.abs(E - ref).max(axis=(1, 2)) / sc).max())
+                dn = float((np.abs(En - refn) / np.maximum(np.abs(refn), 1e-300)).max())
+                track('exact-scale LO operator vs expm, relative', max(d, dn))
+                if not (d <= 1e-10 and dn <= 1e-11):
+                    viol('exact-scale/LO-operator/' + tag, 'LO evolution operator with Q02 == r20 differs from exp(-(γ0/β0) ln R), '
+                         'R = as(Q2)/asp[p] = %r: %g (NS %g) relative (%s)' % (R, d, dn, info), info, j=[str(z) for z in jn])
+            except Exception as e:
+                rep.violation('exact-scale/exception/' + type(e).__name__, 'evolution code raised %r (%s)' % (e, info),
+                              dict(theory=info), found_input=in_real_code(e))
 
     _prev = []
     while done < ntheories and attempts < 20 * ntheories:
@@ -194,10 +370,20 @@ def run(rep):
         lamk = lam[:, kk]
         znd = jj[kk] + complex(rng.uniform(-0.4, 0.4), rng.uniform(-8, 8)) + 2
         gamn = adim.singlet_LO(np.array([znd, znd.conjugate()]) + 1, nf).transpose((2, 0, 1))
-        lamn = ev.lambdaf(gamn)
-        ernd = ev.erfunc_nd(th, lamn, lamk, R)          # [n, a, b]
+        ernd = None
+        try:
+            lamn = ev.lambdaf(gamn)
+            ernd = np.asarray(ev.erfunc_nd(th, lamn, lamk, R))          # [n, a, b]
+            if ernd.shape != (2, 2, 2):
+                raise TypeError('erfunc_nd returned shape %r' % (ernd.shape,))
+        except Exception as e:
+            # helpers of the non-diagonal term (no property speaks of them directly): a changed signature or a raise
+            # here loses the c02.ernd correspondence, it is not by itself a failing input of the property
+            rep.violation('helper/erfunc_nd/' + type(e).__name__, 'evolution.lambdaf / erfunc_nd(m, lamn, lamk, R) as cb1 calls '
+                          'them: %r (%s)' % (e, 'raised inside the package' if in_real_code(e) else 'call rejected: signature changed?'),
+                          dict(theory=info, zn=str(znd)), found_input=False)
         rfk = R ** (-lamk / b0)
-        for n in range(2):
+        for n in range(2 if ernd is not None else 0):
             for a in range(2):
                 for b in range(2):
                     lines.append(' '.join(['c02.ernd', f2hex(b0), f2hex(R)] + cx(lamn[a, n]) + cx(lamk[b])))
@@ -420,10 +606,28 @@ def run(rep):
                          x_c, xn_c, x_l, xn_l, info_o), info_o, j=[str(z) for z in jn])
 
     rep.coverage['theories'] = done
+    rep.coverage['theory_draws'] = attempts
+    if done < max(8, ntheories // 8):
+        # nearly every draw fell outside 0 < as(Q2)/2pi <= 0.1 (on the pinned tree 1-3 % of the draws do): the couplings the
+        # package computes are off, or the generator is; either way the run has not exercised the property
+        rep.violation('coverage/too-few-theories', 'only %d of %d drawn theories have 0 < as(Q2)/2pi <= 0.1 and 0 < as(Q02)/2pi < 1 '
+                      'according to qcd.as2pf (skipped: %s): the oracle streams ran on too few cases' % (
+                          done, attempts, rep.coverage.get('distribution', {}).get('skipped', {})),
+                      dict(done=done, attempts=attempts), found_input=False)
+
+    reuse_stream()
+    exact_scale_stream()
     rep.coverage['worst_oracle_values'] = {k: float('%.3g' % v) for k, v in sorted(worst_o.items())}
 
     # ---------------------------------------------------------------------- model vs code
-    out = common.run_driver(lines)
+    try:
+        out = common.run_driver(lines)
+    except common.ModelUnavailable as ex:
+        # the oracle streams above have evaluated the property on the real code; what is lost is the correspondence
+        rep.coverage['model_unavailable'] = str(ex)[:500]
+        rep.violation('model-unavailable', 'the executable model of C02 could not be built (%s): the model-vs-code comparison '
+                      'did not run; the oracle streams did' % str(ex)[:300], dict(detail=str(ex)[:1000]), found_input=False)
+        out = []
     worst = {}
     for line, m, o in zip(lines, meta, out):
         kind = m['kind']
@@ -470,6 +674,10 @@ def run(rep):
         'complex power and einsum summation order differ from the model only by rounding)',
         'theories: nf∈{3,4,5}, p∈{0,1}, scheme∈{msbar,csbar}, Q0²∈[1,10], Q²∈[1,1e4], as(r20)/2π∈[0.005,0.08], '
         'r20∈[1,10]; skipped unless 0<as(Q²)/2π≤0.1 and 0<as(Q0²)/2π<1',
+        'reference couplings: asp[p] = a0, the entries of the other orders are 1.17·a0 / 0.85·a0 / 0.8·a0 (never read at order p)',
+        're-use stream: bitwise equality with a fresh object built from the same values (the operator is a function of '
+        'the current attribute values; same arithmetic, same order); exact-scale stream: as(Q02 = r20) = asp[p] by definition '
+        'of the reference coupling, LO operator = exp(−(γ0/β0) ln R) to 1e-10 of exp(|γ0|/β0·|ln R|) (scipy.linalg.expm)',
         'singlet operator at j=0 is not evaluated: γ0_GQ has its pole there (numpy returns nan); j=0 enters '
         'through the non-singlet operator only',
         'momentum sum and RG equation use the diagonal operator (process_class="DIS"; identical to "DVCS" for '
